@@ -3,7 +3,9 @@
 package main
 
 import (
+	"cmp"
 	"fmt"
+	"math"
 	"sort"
 	"strings"
 	"sync/atomic"
@@ -510,6 +512,83 @@ func zeroMap() *mc.Failure {
 	return nil
 }
 
+// floatKeys are the keys of the float-keyed histories: omap.New promises the
+// natural order of an ordered key type, which for floats is cmp.Compare's
+// (NaN equal to itself and below everything, -0 equal to +0).
+var floatKeys = []float64{math.NaN(), math.Inf(-1), -1, 0, 1, math.Inf(1)}
+
+// floatHistory runs one history on omap.New[float64,int]: op i < 6 is
+// Set(floatKeys[i], step), op i >= 6 is Delete(floatKeys[i-6]). The reference
+// is a slice kept sorted by cmp.Compare.
+func floatHistory(ops []int) *mc.Failure {
+	type kv struct {
+		k float64
+		v int
+	}
+	var ref []kv
+	find := func(k float64) (int, bool) {
+		return sort.Find(len(ref), func(i int) int { return cmp.Compare(k, ref[i].k) })
+	}
+	m := omap.New[float64, int]()
+	for step, op := range ops {
+		k := floatKeys[op%6]
+		i, ok := find(k)
+		if op < 6 {
+			if got := m.Set(k, step+1); got != !ok {
+				return mc.Failf(step, "Set(%v)=%v want %v", k, got, !ok)
+			}
+			if ok {
+				ref[i].v = step + 1
+			} else {
+				ref = append(ref[:i], append([]kv{{k, step + 1}}, ref[i:]...)...)
+			}
+		} else {
+			if got := m.Delete(k); got != ok {
+				return mc.Failf(step, "Delete(%v)=%v want %v", k, got, ok)
+			}
+			if ok {
+				ref = append(ref[:i], ref[i+1:]...)
+			}
+		}
+		if m.Len() != len(ref) {
+			return mc.Failf(step, "Len=%d want %d after %v", m.Len(), len(ref), ops[:step+1])
+		}
+		for _, q := range floatKeys {
+			j, has := find(q)
+			v, ok := m.GetOK(q)
+			if ok != has || (has && v != ref[j].v) {
+				return mc.Failf(step, "GetOK(%v)=(%d,%v) want present=%v", q, v, ok, has)
+			}
+			// Seek(q): first key >= q
+			it := m.Seek(q)
+			if it.IsValid() != (j < len(ref)) || (j < len(ref) && cmp.Compare(it.Key(), ref[j].k) != 0) {
+				return mc.Failf(step, "Seek(%v) valid=%v want index %d of %d", q, it.IsValid(), j, len(ref))
+			}
+		}
+		n := 0
+		for it := m.First(); it.IsValid(); it.Next() {
+			if n >= len(ref) || cmp.Compare(it.Key(), ref[n].k) != 0 || it.Value() != ref[n].v {
+				return mc.Failf(step, "First walk entry %d = (%v,%d), reference %v", n, it.Key(), it.Value(), ref)
+			}
+			n++
+		}
+		if n != len(ref) {
+			return mc.Failf(step, "First walk visited %d of %d", n, len(ref))
+		}
+		n = len(ref)
+		for it := m.Last(); it.IsValid(); it.Prev() {
+			n--
+			if n < 0 || cmp.Compare(it.Key(), ref[n].k) != 0 {
+				return mc.Failf(step, "Last walk at %d = %v, reference %v", n, it.Key(), ref)
+			}
+		}
+		if n != 0 {
+			return mc.Failf(step, "Last walk stopped %d short", n)
+		}
+	}
+	return nil
+}
+
 func main() {
 	var cnt counters
 	mc.Main("C04",
@@ -585,6 +664,42 @@ func main() {
 					return mc.Failf(-1, "bad trace: %v", err)
 				}
 				return checkLong(tr)
+			},
+		},
+		mc.Harness{
+			Name: "omap-float",
+			Explore: func(r *mc.Run) {
+				depth := mc.Pick(r, 4, 5)
+				total := 1
+				for i := 0; i < depth; i++ {
+					total *= 12
+				}
+				var evals, nontriv int64
+				mc.ParallelFor(total, r.Workers, func(i int) {
+					ops := make([]int, depth)
+					nan := false
+					for j, x := 0, i; j < depth; j, x = j+1, x/12 {
+						ops[j] = x % 12
+						nan = nan || ops[j]%6 == 0
+					}
+					if f := mc.Guard(func() *mc.Failure { return floatHistory(ops) }); f != nil {
+						r.Violation(mc.Case{Harness: "omap-float", Trace: mc.J(ops), Msg: f.Msg})
+					}
+					atomic.AddInt64(&evals, 1)
+					if nan {
+						atomic.AddInt64(&nontriv, 1)
+					}
+				})
+				r.AddEval(evals, evals*int64(depth), evals, nontriv)
+				r.Rule(fmt.Sprintf("omap.New[float64,int]: every history of %d Set/Delete steps over the keys NaN, -Inf, -1, 0, 1, +Inf; after every step Len, GetOK and Seek of every key, First/Next and Last/Prev walks against a slice sorted by cmp.Compare; non-trivial = histories that touch the NaN key", depth))
+				r.Sample([]int{0, 3, 6})
+			},
+			Replay: func(c mc.Case) *mc.Failure {
+				var ops []int
+				if err := mc.Unmarshal(c.Trace, &ops); err != nil {
+					return mc.Failf(-1, "bad trace: %v", err)
+				}
+				return mc.Guard(func() *mc.Failure { return floatHistory(ops) })
 			},
 		},
 		mc.Harness{
